@@ -94,10 +94,16 @@ class PersistenceLandscaper(BaseEstimator, TransformerMixin):
         """
         # TODO: remove infinities
         _dgm = X[self.hom_deg]
-        if self.start is None:
+        # a value learned by an earlier fit is learned again from X; a value
+        # set by the user is kept
+        learned = getattr(self, "_learned_grid", {})
+        if self.start is None or ("start" in learned and self.start == learned["start"]):
             self.start = min(_dgm, key=itemgetter(0))[0]
-        if self.stop is None:
+            learned["start"] = self.start
+        if self.stop is None or ("stop" in learned and self.stop == learned["stop"]):
             self.stop = max(_dgm, key=itemgetter(1))[1]
+            learned["stop"] = self.stop
+        self._learned_grid = learned
         return self
 
     def transform(self, X: np.ndarray, y=None):
